@@ -269,11 +269,11 @@ def eval : RExpr → List (Option Val) → Res Bool
     | [a] => equal argV a
     | _ => .err "equalsexpr.resolve-status-error"                  -- expr.go:53
   | .inE rows, input => evalRows rows input
-/-- expr.go:110-126: first row whose every component accepts wins; a row of the wrong length answers `false` at once. -/
+/-- expr.go:110-130: first row whose every component accepts wins; a row of another length is skipped (`continue`). -/
 def evalRows : RRows → List (Option Val) → Res Bool
   | .nil, _ => .ok false
   | .cons row rest, input =>
-    if input.length != row.len then .ok false                     -- :111
+    if input.length != row.len then evalRows rest input           -- :112-115
     else (evalRow row input).bind (fun b => if b then .ok true else evalRows rest input)
 /-- expr.go:114-122 inner loop (the row and the input have the same length). -/
 def evalRow : RRow → List (Option Val) → Res Bool
@@ -283,6 +283,29 @@ def evalRow : RRow → List (Option Val) → Res Bool
     | [] => .ok true
     | a :: as => (eval e [a]).bind (fun b => if b then evalRow r as else .ok false)
 end
+
+/-! ## Variadic mode of `In` with tuple items (expr.go:69-95 with `isVariadic`, value.go:116 `ToExpr(.., true)`, expr.go:99-109)
+
+`types = fixed ++ [variadic slice type]`; `elemT` is `types.last.Elem()`.  A tuple needs at least `len(types)-1` components;
+component `i` is resolved (non-variadically) against `types[i]` for `i < len(types)-1` and against `elemT` from there on —
+which is `typeAt (fixed ++ [elemT]) i`.  A non-tuple item in variadic mode is expanded with `reflect.Value.Len` and is not
+modelled.  `Eval` replaces the packed last argument by its elements and otherwise proceeds as above. -/
+
+def resolveTuplesV : Items → List Ty → Ty → Res RRows
+  | .nil, _, _ => .ok .nil
+  | .one _ _, _, _ => .unmodelled
+  | .tuple cs rest, fixed, elemT =>
+    (if cs.len < fixed.length then (Res.err "the-number-of-args" : Res RRow) else toExprFrom cs (fixed ++ [elemT]) 0).bind
+      (fun row => (resolveTuplesV rest fixed elemT).bind (fun rows => .ok (.cons row rows)))
+
+/-- `In(items).Resolve(fixed ++ [sliceT], true)`. -/
+def resolveInV (items : Items) (fixed : List Ty) (elemT : Ty) : Res RExpr :=
+  (resolveTuplesV items fixed elemT).bind (fun rows => .ok (.inE rows))
+
+/-- `InExpr.Eval(fixedArgs ++ [packed], true)` where `packed` holds `elems` (expr.go:99-109: the caller's list is copied,
+    never written). -/
+def evalInV (r : RExpr) (fixedArgs elems : List (Option Val)) : Res Bool :=
+  eval r (fixedArgs ++ elems)
 
 /-! ## An expression object with the state Resolve fills in, under a history of calls -/
 
